@@ -113,4 +113,43 @@ def unfilterLine (ft bpp : Nat) (data prev : Bytes) : Option (Option Bytes) :=
   if data.length < bpp ∨ data.length ≠ prev.length then none else
   if ft ≤ 4 then some (some (unfilterAux ft bpp prev [] data)) else some none
 
+/-! ## Alpha optimisation of a scan line (`RowFilter::optimize_alpha`) -/
+
+def pxTransparent (colorBytes : Nat) (px : Bytes) : Bool := (px.drop colorBytes).all (· = 0)
+
+/-- colour bytes the rewrite gives to the fully transparent pixel `i` (`acc` = pixels already
+    processed, i.e. `pixels[0..i]` after mutation) -/
+def alphaColour (ft colorBytes i : Nat) (pixels prevPixels acc : List Bytes) (firstOpaque : Nat) : Bytes :=
+  let up := (prevPixels.getD i []).take colorBytes
+  match ft with
+  | 1 => ((if i = 0 then pixels.getD firstOpaque [] else acc.getD (i - 1) []).take colorBytes)
+  | 2 => up
+  | 3 => if i = 0 then up.map (fun (x : UInt8) => x >>> (1 : UInt8))
+         else List.zipWith avg ((acc.getD (i - 1) []).take colorBytes) up
+  | 4 => if i = 0 then List.zipWith (fun a b => if a ≤ b then a else b) ((pixels.getD firstOpaque []).take colorBytes) up
+         else (List.range colorBytes).map fun j =>
+           paeth ((acc.getD (i - 1) []).getD j 0) ((prevPixels.getD i []).getD j 0) ((prevPixels.getD (i - 1) []).getD j 0)
+  | _ => (pixels.getD i []).take colorBytes
+
+def optimizeAlphaPixels (ft colorBytes : Nat) (pixels prevPixels : List Bytes) : List Bytes :=
+  let firstOpaque := (pixels.findIdx? fun px => (px.drop colorBytes).any (· ≠ 0)).getD 0
+  pixels.zipIdx.foldl (fun acc (px, i) =>
+    if pxTransparent colorBytes px then
+      acc ++ [alphaColour ft colorBytes i pixels prevPixels acc firstOpaque ++ px.drop colorBytes]
+    else acc ++ [px]) []
+
+/-- `optimize_alpha`: the rewritten line (bytes after the last whole pixel are untouched) -/
+def optimizeAlpha (ft bpp : Nat) (data prev : Bytes) (colorBytes : Nat) : Bytes :=
+  if ft = 0 ∨ ft > 4 then data else
+  let pixels := chunksExact bpp data
+  let prevPixels := chunksExact bpp prev
+  (optimizeAlphaPixels ft colorBytes pixels prevPixels).flatten ++ data.drop (bpp * pixels.length)
+
+/-- `filter_line` with alpha optimisation: `(line data after the rewrite, filtered line incl. type byte)` -/
+def filterLineAlpha (ft bpp : Nat) (data prev : Bytes) (alphaBytes : Nat) : Option (Bytes × Bytes) :=
+  if data.length < bpp ∨ data.length ≠ prev.length then none else
+  let data' := if alphaBytes ≠ 0 then optimizeAlpha ft bpp data prev (bpp - alphaBytes) else data
+  (filterLine ft bpp data' prev).map fun out => (data', out)
+
 end OxiModel
+
